@@ -9,6 +9,7 @@ variable {F : Type} [Scalar F]
 theorem reset_eq (s : PercentagePriceOscillator F) (h : WF s) :
     s.reset = some (fresh s.fast_ema.period s.slow_ema.period s.signal_ema.period) := by
   unfold reset
+  try simp only [gen_helper]
   simp [ExponentialMovingAverage.reset_eq _ h.fast, ExponentialMovingAverage.reset_eq _ h.slow,
     ExponentialMovingAverage.reset_eq _ h.signal, fresh]
 
